@@ -171,11 +171,12 @@ func (w *world) build(name string) (*core.Location, error) {
 		return nil, err
 	}
 	ctx := newCtx()
+	// (the control is handed to NewLocation, as sys.System does, and not
+	// set afterwards)
 	loc, err := core.NewLocation(ctx, name, st, w.ctrl)
 	if err != nil {
 		return nil, err
 	}
-	loc.SetControl(w.ctrl)
 	loc.Provider = w.prov
 	return loc, nil
 }
